@@ -882,6 +882,12 @@ class KafkaClient(object):
                 self.reset_consumer_group_metadata(consumer_group)
                 if fail_on_error:
                     raise
+            except BrokerResponseError:
+                # Any other error code: only an exception when the caller
+                # asked for one. Otherwise hand back the response, so that
+                # the caller can tell which payloads failed.
+                if fail_on_error:
+                    raise
 
             if callback is not None:
                 out.append(callback(resp))
